@@ -502,6 +502,17 @@ func hasBigIntegralFloat(v reflect.Value) bool {
 	return bad
 }
 
+// a float leaf with lo <= x < hi
+func hasFloatIn(v reflect.Value, lo, hi float64) bool {
+	bad := false
+	vh.WalkFloats(v, func(x float64, _ int) {
+		if x >= lo && x < hi {
+			bad = true
+		}
+	})
+	return bad
+}
+
 func hasMaxFloat32(v reflect.Value) bool {
 	bad := false
 	vh.WalkFloats(v, func(x float64, bits int) {
@@ -663,6 +674,10 @@ func (c *ctx) one(r *vh.Rng, idx int, wantModel bool) {
 		forceBigUint(r, v)
 	}
 	signedOvf := n.signed && hasBigUint(v)
+	if F == "json" && n.signed && hasFloatIn(v, 9223372036854775808.0, 18446744073709551616.0) {
+		// json writes such a float as an integer literal (F15-1): under SignedInteger the literal exceeds MaxInt64
+		signedOvf = true
+	}
 	cj := map[string]interface{}{"format": F, "opts": oF.String(), "nopts": n.String(), "type": t.String(), "seed_index": idx}
 	hF := vh.NewHandle(F, oF)
 	var enc []byte
@@ -688,9 +703,6 @@ func (c *ctx) one(r *vh.Rng, idx int, wantModel bool) {
 			sum.Count("trans."+F, "trans/"+F+"/signed-overflow/"+vh.TypeShape(t)+"/"+oF.String())
 			sum.Dist["trans.signed-overflow-error."+F]++
 			return
-		}
-		if F == "json" && vh.JsonNegIntLiteralOutOfRange(v) {
-			cls = "c15:json:naked:negative-integer-literal-in-(-2^64,-2^63)"
 		}
 		sum.FailC("trans", cls, "Decode of an encoded value into interface{} returned an error", cj)
 		return
@@ -809,7 +821,14 @@ func (c *ctx) one(r *vh.Rng, idx int, wantModel bool) {
 		if err := codec.NewDecoderBytes(enc2, hG).Decode(dst.Interface()); err != nil {
 			cj2["err"] = err.Error()
 			cj2["bytes2"] = trunc(vh.Hex(enc2), 1500)
-			sum.FailC("trans", "c15:"+F+"->"+G+":typed-decode-error:"+errKind(err), "Decode of the re-encoded generic tree into the original static type returned an error", cj2)
+			cls := "c15:" + F + "->" + G + ":typed-decode-error:" + errKind(err)
+			if F == "json" && (G == "cbor" || G == "binc" || G == "simple") && strings.Contains(err.Error(), "uint64 to int64 overflow") &&
+				hasFloatIn(v, 9223372036854775808.0, 18446744073709551616.0) {
+				// root cause pinned by the input class: the tree holds a uint64 >= 2^63 for the float (F15-1) and the
+				// cbor / binc / simple drivers read an unsigned stream integer into a float through int64 (F07-7)
+				cls = "c15:json->" + G + ":uint64>=2^63-into-float:int64-overflow"
+			}
+			sum.FailC("trans", cls, "Decode of the re-encoded generic tree into the original static type returned an error", cj2)
 			okAll = false
 			continue
 		}
